@@ -2,7 +2,7 @@
 from props import _worldcheck as W
 
 ID = "C05"
-SECTIONS = ["ops"]
+SECTIONS = ["ops", "session"]
 LEAN_MODULES = ["QExPy.Props.C05", "QExPy.Props.C03"]
 THEOREMS = ["QExPy.World.C05_recalc_fresh", "QExPy.World.C05_recalc_redraws",
             "QExPy.World.C05_deriv_current", "QExPy.World.C05_read_stable",
